@@ -20,8 +20,8 @@ Definition final (s : st) : Prop := s_rd s = RdDone /\ forallb final_task (s_tas
 (* nothing can move *)
 Definition stuck (c : cfg) (s : st) : Prop := forall l, step c l s = None.
 
-(* the known deviation: an entry was put into msg_senders after the reader cleared it (add_match checked before the clear and
-   inserted after it) — its channel is never closed and later subscriptions pass the emptiness test again *)
+(* the deviation class of the code before fix 3703ee13: an entry was put into msg_senders after the reader cleared it (add_match
+   checked before the clear and inserted after it).  No reachable state is in it any more: Progress.never_raced *)
 Definition raced (s : st) : bool :=
   match s_rd s with RdDone => negb (is_nil (s_senders s)) | _ => false end.
 
